@@ -337,13 +337,24 @@ def gen_random(tier, seed):
         yield case
 
 
+def gen_long(tier):
+    """long worklists: the string conversion and the file must still carry every record"""
+    sizes = (999, 1000, 1001, 1500, 4097) if tier == "quick" else (255, 256, 257, 999, 1000, 1001, 1500, 2048, 4097, 10001, 65537)
+    for i, n in enumerate(sizes):
+        recs = [f"C;line {k} \xb5" if k % 97 == 0 else ("W1;" if k % 2 else "B;") for k in range(n)]
+        dev = ["Base", "Evo", "Fluent"][i % 3]
+        yield {"device": dev, "pre": {}, "before": appends(recs) + [["save", "out.gwl", "str"]]}
+        yield {"device": dev, "pre": {"out.gwl": "old\r\n" * (2 * n)}, "ctor": {"name": "out.gwl", "kind": "Path"}, "blocks": [{"body": appends(recs)}]}
+
+
 def generate(tier, seed):
-    for name, gen in (("file names", gen_names(tier)), ("small-scope exhaustive", gen_exhaustive(tier)), ("random scripts", gen_random(tier, seed))):
+    for name, gen in (("long worklists", gen_long(tier)), ("file names", gen_names(tier)), ("small-scope exhaustive", gen_exhaustive(tier)), ("random scripts", gen_random(tier, seed))):
         for case in gen:
             yield name, case
 
 
-BOUNDS = {"file names": "12 accepted + 16 refused names (case, dots, sub-directories named *.gwl, trailing characters) x str/Path x 3 record lists x {none, longer, shorter} pre-existing x {save, with, with+exception} x device (quick: one device per name)",
+BOUNDS = {"long worklists": "record lists of 999..4097 (thorough 255..65537) records, saved explicitly and through a with block over a longer old file; str()/repr() compared record by record",
+          "file names": "12 accepted + 16 refused names (case, dots, sub-directories named *.gwl, trailing characters) x str/Path x 3 record lists x {none, longer, shorter} pre-existing x {save, with, with+exception} x device (quick: one device per name)",
           "small-scope exhaustive": "all record lists of length 0..3 (thorough 0..4) over 4 records x 7 pre-existing variants x str/Path x 10 save histories",
           "random scripts": "seeded random (quick 5000, thorough 60000) scripts: <= 6 steps before, <= 3 with-blocks of <= 12 steps, <= 4 steps after, explicit saves with p=0.2 per step, all record types incl. transfer/distribute/evo commands, Latin-1 comments/labels"}
 
